@@ -4,7 +4,7 @@
     Only statements; proofs are in coq/proofs/. *)
 From Coq Require Import List NArith Bool.
 From TG.Model Require Import CoreAst Scope BangOps Indexer ScopeSpec.
-From TG.Proofs Require Import ScopeBalance ScopeFrame ScopeSim.
+From TG.Proofs Require Import ScopeBalance ScopeFrame ScopeSim ScopeSimStmt.
 Import ListNotations.
 Open Scope N_scope.
 
@@ -119,3 +119,38 @@ Example C05_resolution_values_nonvacuous :
   s_bad (snd (index_value 30 ex_foldl st0)) = false /\
   spec_value 0 env0 ex_foldl = [(mkR 0 31 34, Some (mkR 0 18 21)); (mkR 0 36 37, Some (mkR 0 23 24))].
 Proof. repeat split; try reflexivity; try apply Pre_initial. Qed.
+
+(** C05_resolution for the block statements (partial: the statements that declare records - class, def, defm,
+    defset, multiclass - and includes are not yet under this theorem).
+    For EVERY list of statements built from assert, dump, defvar, foreach, if/else and let (any nesting) over
+    values of the fragment, indexed from the initial state with enough fuel: if every use is in scope according
+    to the declarative resolver ScopeSpec, the uses the model records, in order, with the declarations they are
+    resolved to, are EXACTLY the list the specification computes, and no "not found" diagnostic is emitted.
+    (In particular a defvar of an if / let / foreach block is invisible after the block - D13 - because the
+    specification forgets the extended environment.) *)
+Theorem C05_resolution_blocks_partial : forall files n l,
+    fragA_stmts l = true ->
+    forallb resolved (fst (spec_stmts 0 env0 l)) = true ->
+    s_bad (snd (iterM (index_stmt files n) l st0)) = false ->
+    rev (s_uses (snd (iterM (index_stmt files n) l st0))) = fst (spec_stmts 0 env0 l) /\
+    nf (snd (iterM (index_stmt files n) l st0)) = [].
+Proof. exact blocks_resolution. Qed.
+Check C05_resolution_blocks_partial : forall files n l,
+    fragA_stmts l = true ->
+    forallb resolved (fst (spec_stmts 0 env0 l)) = true ->
+    s_bad (snd (iterM (index_stmt files n) l st0)) = false ->
+    rev (s_uses (snd (iterM (index_stmt files n) l st0))) = fst (spec_stmts 0 env0 l) /\
+    nf (snd (iterM (index_stmt files n) l st0)) = [].
+Print Assumptions C05_resolution_blocks_partial.
+
+(** Non-vacuity: `defvar g = 1; foreach i = [1, 2] in { defvar x = !add(i, g); if g then { defvar y = x; } else
+    { let f = i in { defvar g = [x, i]; } } } defvar h = g;` (the serialisation of the REAL parse): in the fragment,
+    well-scoped, enough fuel; 8 uses, the last `g` resolves to the FIRST defvar (the inner `g` is out of scope). *)
+Definition ex_blocks : list stmt :=
+  [(SDefvar (mkId (mkR 0 7 8) [103]) (Val (mkR 0 11 12) [(Inner SInt [])])); (SForeach (mkId (mkR 0 22 23) [105]) (FeValue (Val (mkR 0 26 33) [(Inner (SList [(Val (mkR 0 27 28) [(Inner SInt [])]); (Val (mkR 0 30 31) [(Inner SInt [])])]) [])])) [(SDefvar (mkId (mkR 0 45 46) [120]) (Val (mkR 0 49 59) [(Inner (SBang XAdd None [(Val (mkR 0 54 55) [(Inner (SId (mkId (mkR 0 54 55) [105])) [])]); (Val (mkR 0 57 58) [(Inner (SId (mkId (mkR 0 57 58) [103])) [])])] (mkR 0 49 59)) [])])); (SIf (Val (mkR 0 64 66) [(Inner (SId (mkId (mkR 0 64 65) [103])) [])]) [(SDefvar (mkId (mkR 0 80 81) [121]) (Val (mkR 0 84 85) [(Inner (SId (mkId (mkR 0 84 85) [120])) [])]))] (Some [(SLet [(Val (mkR 0 104 106) [(Inner (SId (mkId (mkR 0 104 105) [105])) [])])] [(SDefvar (mkId (mkR 0 118 119) [103]) (Val (mkR 0 122 128) [(Inner (SList [(Val (mkR 0 123 124) [(Inner (SId (mkId (mkR 0 123 124) [120])) [])]); (Val (mkR 0 126 127) [(Inner (SId (mkId (mkR 0 126 127) [105])) [])])]) [])]))])]))]); (SDefvar (mkId (mkR 0 143 144) [104]) (Val (mkR 0 147 148) [(Inner (SId (mkId (mkR 0 147 148) [103])) [])]))].
+Example C05_resolution_blocks_nonvacuous :
+  fragA_stmts ex_blocks = true /\ forallb resolved (fst (spec_stmts 0 env0 ex_blocks)) = true /\
+  s_bad (snd (iterM (index_stmt [] 60) ex_blocks st0)) = false /\
+  length (fst (spec_stmts 0 env0 ex_blocks)) = 8%nat /\
+  last (fst (spec_stmts 0 env0 ex_blocks)) (mkR 0 0 0, None) = (mkR 0 147 148, Some (mkR 0 7 8)).
+Proof. vm_compute. repeat split; reflexivity. Qed.
